@@ -321,3 +321,233 @@ Proof.
       right. split; [|exact Hi].
       apply (Hsame tc Htc). apply (Hsame t' Ht'). exact Hx.
 Qed.
+
+(* ------------------------------------------------------------------------------------ *)
+(* Partitioning.partition_ranks (all levels) = in-place expansion, for ANY iteration order *)
+(* of the set of partitioned ranks                                                         *)
+(* ------------------------------------------------------------------------------------ *)
+Lemma insert_at_app P : forall i x l, insert_at (length P + i) x (P ++ l) = P ++ insert_at i x l.
+Proof. induction P as [|a P IH]; intros; simpl; [reflexivity|]. rewrite IH. reflexivity. Qed.
+
+Lemma fold_insert_app P i names : forall l,
+  fold_left (fun acc nm => insert_at (length P + i) nm acc) names (P ++ l) =
+  P ++ fold_left (fun acc nm => insert_at i nm acc) names l.
+Proof.
+  induction names as [|nm t IH]; intros l; simpl; [reflexivity|]. rewrite insert_at_app. apply IH.
+Qed.
+
+Lemma fold_insert_0 names : forall l, fold_left (fun acc nm => insert_at 0 nm acc) names l = rev names ++ l.
+Proof.
+  induction names as [|nm t IH]; intros l; simpl; [reflexivity|]. rewrite IH, <- app_assoc. reflexivity.
+Qed.
+
+Lemma index_of_app P r l : ~ In r P -> index_of r (P ++ l) = length P + index_of r l.
+Proof.
+  induction P as [|a P IH]; simpl; intro H; [reflexivity|].
+  destruct (String.eqb r a) eqn:E; [apply String.eqb_eq in E; subst; tauto|]. rewrite IH by tauto. reflexivity.
+Qed.
+
+Lemma remove_first_app P r l : ~ In r P -> remove_first r (P ++ l) = P ++ remove_first r l.
+Proof.
+  induction P as [|a P IH]; simpl; intro H; [reflexivity|].
+  destruct (String.eqb r a) eqn:E; [apply String.eqb_eq in E; subst; tauto|]. rewrite IH by tauto. reflexivity.
+Qed.
+
+Lemma update_ranks_app P r n l : ~ In r P -> update_ranks r n (P ++ l) = P ++ update_ranks r n l.
+Proof.
+  intro H. unfold update_ranks. rewrite index_of_app, remove_first_app by exact H. apply fold_insert_app.
+Qed.
+
+Lemma level_names_rev r n : rev (names_ascending r n) = level_names r n.
+Proof. unfold names_ascending, level_names. rewrite map_rev. reflexivity. Qed.
+
+Lemma update_ranks_head r n l : update_ranks r n (r :: l) = level_names r n ++ l.
+Proof.
+  unfold update_ranks. simpl index_of. simpl remove_first. rewrite String.eqb_refl.
+  rewrite fold_insert_0, level_names_rev. reflexivity.
+Qed.
+
+Definition slot (ps : parts) (r : string) : list string :=
+  match lookup r ps with Some n => level_names r n | None => [r] end.
+
+Lemma expand_slot ps ranks : expand ps ranks = flat_map (slot ps) ranks.
+Proof. reflexivity. Qed.
+
+Lemma lookup_In {A} r (l : list (string * A)) v : lookup r l = Some v -> In (r, v) l.
+Proof.
+  induction l as [|[k w] t IH]; simpl; [discriminate|].
+  destruct (String.eqb r k) eqn:E.
+  - intro H. inversion H; subst. apply String.eqb_eq in E. subst. left. reflexivity.
+  - intro H. right. apply IH, H.
+Qed.
+
+Lemma lookup_None {A} r (l : list (string * A)) : lookup r l = None <-> ~ In r (map fst l).
+Proof.
+  induction l as [|[k w] t IH]; simpl; [tauto|].
+  destruct (String.eqb r k) eqn:E.
+  - apply String.eqb_eq in E. subst. split; [discriminate|]. intro H. exfalso. apply H. left. reflexivity.
+  - apply String.eqb_neq in E. rewrite IH. split; [|tauto]. intros H [H1|H1]; [congruence|contradiction].
+Qed.
+
+Lemma lookup_NoDup_In {A} r (l : list (string * A)) v : NoDup (map fst l) -> In (r, v) l -> lookup r l = Some v.
+Proof.
+  induction l as [|[k w] t IH]; simpl; [tauto|]. intros Hnd [H|H].
+  - inversion H; subst. rewrite String.eqb_refl. reflexivity.
+  - inversion Hnd as [|? ? Hn Hnd']; subst. destruct (String.eqb r k) eqn:E.
+    + apply String.eqb_eq in E. subst. exfalso. apply Hn. apply in_map_iff. exists (k, v). split; [reflexivity|exact H].
+    + apply IH; assumption.
+Qed.
+
+Definition fresh (ps : parts) : Prop :=
+  forall p nm, In p ps -> In nm (level_names (fst p) (snd p)) -> ~ In nm (map fst ps).
+
+Lemma fresh_b_spec ps : fresh_b ps = true <-> fresh ps.
+Proof.
+  unfold fresh_b, fresh. rewrite forallb_forall. split.
+  - intros H p nm Hp Hnm. specialize (H p Hp). rewrite forallb_forall in H. specialize (H nm Hnm).
+    apply negb_true_iff, smem_false in H. exact H.
+  - intros H p Hp. apply forallb_forall. intros nm Hnm. apply negb_true_iff, smem_false. eapply H; eauto.
+Qed.
+
+Lemma expand_ext ps1 ps2 ranks : (forall r, In r ranks -> lookup r ps1 = lookup r ps2) ->
+  expand ps1 ranks = expand ps2 ranks.
+Proof.
+  intro H. unfold expand. apply flat_map_ext_in. intros r Hr. rewrite (H r Hr). reflexivity.
+Qed.
+
+Lemma expand_nil ranks : expand [] ranks = ranks.
+Proof. unfold expand. induction ranks as [|a t IH]; simpl in *; [reflexivity|]. f_equal. exact IH. Qed.
+
+Lemma expand_In ps ranks x : In x (expand ps ranks) ->
+  (In x ranks /\ lookup x ps = None) \/ (exists r n, In r ranks /\ lookup r ps = Some n /\ In x (level_names r n)).
+Proof.
+  unfold expand. rewrite in_flat_map. intros [r [Hr Hx]]. destruct (lookup r ps) as [n|] eqn:E.
+  - right. exists r, n. tauto.
+  - left. destruct Hx as [Hx|[]]. subst. tauto.
+Qed.
+
+(* one update step on an already partly expanded list *)
+Lemma update_expand_step done r n : forall ranks,
+  NoDup ranks -> In r ranks -> lookup r done = None ->
+  (forall r' n', lookup r' done = Some n' -> ~ In r (level_names r' n')) ->
+  update_ranks r n (expand done ranks) = expand ((r, n) :: done) ranks.
+Proof.
+  induction ranks as [|x t IH]; intros Hnd Hin Hl Hfr; [contradiction|].
+  inversion Hnd as [|? ? Hnx Hnd']; subst. rewrite !expand_slot. simpl flat_map. rewrite <- !expand_slot.
+  destruct (string_dec x r) as [->|Hne].
+  - unfold slot at 1. rewrite Hl. simpl app. rewrite update_ranks_head.
+    unfold slot. simpl lookup. rewrite String.eqb_refl. f_equal.
+    apply expand_ext. intros r' Hr'. simpl. destruct (String.eqb r' r) eqn:E; [|reflexivity].
+    apply String.eqb_eq in E. subst. contradiction.
+  - destruct Hin as [Hin|Hin]; [contradiction|].
+    assert (Hslot : slot ((r, n) :: done) x = slot done x).
+    { unfold slot. simpl. destruct (String.eqb x r) eqn:E; [apply String.eqb_eq in E; contradiction|reflexivity]. }
+    rewrite Hslot. rewrite update_ranks_app.
+    + f_equal. apply IH; assumption.
+    + unfold slot. destruct (lookup x done) as [n'|] eqn:E.
+      * apply Hfr. exact E.
+      * intros [H|[]]. contradiction.
+Qed.
+
+Lemma fold_update_expand ps ranks : NoDup ranks -> fresh ps -> forall used done,
+  incl used ps -> incl done ps -> NoDup (map fst (used ++ done)) ->
+  (forall p, In p used -> In (fst p) ranks) ->
+  fold_left (fun acc p => update_ranks (fst p) (snd p) acc) used (expand done ranks) = expand (rev used ++ done) ranks.
+Proof.
+  intros Hnd Hfr. induction used as [|[r n] u IH]; intros done Hu Hd Hk Hr; simpl; [reflexivity|].
+  rewrite update_expand_step.
+  - rewrite IH.
+    + rewrite <- app_assoc. reflexivity.
+    + intros p Hp. apply Hu. right. exact Hp.
+    + intros p [Hp|Hp]; [subst; apply Hu; left; reflexivity|apply Hd, Hp].
+    + simpl in Hk. rewrite map_app in Hk. rewrite map_app. simpl.
+      eapply Permutation_NoDup; [apply Permutation_middle|exact Hk].
+    + intros p Hp. apply Hr. right. exact Hp.
+  - exact Hnd.
+  - apply (Hr (r, n)). left. reflexivity.
+  - apply lookup_None. simpl in Hk. inversion Hk as [|? ? Hn _]; subst. intro H. apply Hn.
+    rewrite map_app, in_app_iff. right. exact H.
+  - intros r' n' Hl Hin. apply lookup_In in Hl. apply (Hfr (r', n') r (Hd _ Hl) Hin).
+    apply in_map_iff. exists (r, n). split; [reflexivity|]. apply Hu. left. reflexivity.
+Qed.
+
+Lemma filter_nil_all {A} (p : A -> bool) l : (forall x, In x l -> p x = false) -> filter p l = [].
+Proof.
+  induction l as [|a t IH]; simpl; intro H; [reflexivity|]. rewrite (H a) by (left; reflexivity).
+  apply IH. intros; apply H; right; assumption.
+Qed.
+
+Lemma NoDup_map_filter {A B} (f : A -> B) (p : A -> bool) l : NoDup (map f l) -> NoDup (map f (filter p l)).
+Proof.
+  induction l as [|a t IH]; simpl; intro H; [constructor|]. inversion H; subst.
+  destruct (p a); [|apply IH; assumption]. simpl. constructor; [|apply IH; assumption].
+  intro Hin. apply in_map_iff in Hin as [x [Hx Hin]]. apply filter_In in Hin as [Hin _].
+  apply H2. apply in_map_iff. exists x. tauto.
+Qed.
+
+(* partition_ranks with the parts listed in their own order *)
+Lemma part_loop_expand_self ps ranks fuel : NoDup (map fst ps) -> fresh ps -> NoDup ranks -> 2 <= fuel ->
+  part_loop fuel ps ranks = Some (expand ps ranks).
+Proof.
+  intros Hk Hfr Hnd Hfuel. destruct fuel as [|[|f]]; try lia.
+  assert (Hused : forall p, In p (used_parts ps ranks) <-> In p ps /\ In (fst p) ranks).
+  { intro p. unfold used_parts. rewrite filter_In, smem_In. tauto. }
+  assert (Hexp : expand (rev (used_parts ps ranks)) ranks = expand ps ranks).
+  { apply expand_ext. intros r Hr. destruct (lookup r ps) as [n|] eqn:E.
+    - apply lookup_NoDup_In.
+      + rewrite map_rev. apply NoDup_rev. apply NoDup_map_filter. exact Hk.
+      + apply in_rev. rewrite rev_involutive. apply Hused. split; [apply lookup_In, E|exact Hr].
+    - apply lookup_None. apply lookup_None in E. intro H. apply E.
+      apply in_map_iff in H as [p [Hp Hin]]. apply in_rev in Hin. apply Hused in Hin.
+      apply in_map_iff. exists p. tauto. }
+  assert (Hfold : fold_left (fun acc p => update_ranks (fst p) (snd p) acc) (used_parts ps ranks) ranks
+                  = expand ps ranks).
+  { rewrite <- Hexp.
+    pose proof (fold_update_expand ps ranks Hnd Hfr (used_parts ps ranks) []) as H.
+    rewrite expand_nil, !app_nil_r in H. apply H.
+    - intros p Hp. apply Hused in Hp. tauto.
+    - intros p [].
+    - apply NoDup_map_filter. exact Hk.
+    - intros p Hp. apply Hused in Hp. tauto. }
+  assert (Hdone : used_parts ps (expand ps ranks) = []).
+  { unfold used_parts. apply filter_nil_all. intros p Hp. apply smem_false. intro Hin.
+    apply expand_In in Hin as [[Hin Hl]|[r [n [Hr [Hl Hin]]]]].
+    - apply lookup_None in Hl. apply Hl. apply in_map. exact Hp.
+    - apply lookup_In in Hl. apply (Hfr (r, n) (fst p) Hl Hin). apply in_map. exact Hp. }
+  cbn [part_loop]. destruct (used_parts ps ranks) as [|p u] eqn:Eu.
+  - f_equal. simpl in Hfold. exact Hfold.
+  - rewrite Hfold. rewrite Hdone. reflexivity.
+Qed.
+
+Lemma lookup_perm {A} r (l l' : list (string * A)) : NoDup (map fst l) -> Permutation l l' -> lookup r l = lookup r l'.
+Proof.
+  intros Hk Hp. assert (Hk' : NoDup (map fst l')) by (eapply Permutation_NoDup; [apply Permutation_map, Hp|exact Hk]).
+  destruct (lookup r l) as [v|] eqn:E.
+  - symmetry. apply lookup_NoDup_In; [exact Hk'|]. eapply Permutation_in; [exact Hp|]. apply lookup_In, E.
+  - symmetry. apply lookup_None. apply lookup_None in E. intro H. apply E.
+    eapply Permutation_in; [apply Permutation_map, Permutation_sym, Hp|exact H].
+Qed.
+
+Lemma fresh_perm ps ps' : Permutation ps ps' -> fresh ps -> fresh ps'.
+Proof.
+  intros Hp H p nm Hin Hnm Hk. apply (H p nm).
+  - eapply Permutation_in; [apply Permutation_sym, Hp|exact Hin].
+  - exact Hnm.
+  - eapply Permutation_in; [apply Permutation_map, Permutation_sym, Hp|exact Hk].
+Qed.
+
+(* (C) whatever order Python iterates the set of partitioned ranks in, the while loop ends after
+   two rounds with every partitioned rank replaced in place by [Rn; ...; R0] *)
+Lemma part_loop_expand ps ps' ranks fuel :
+  NoDup (map fst ps) -> fresh_b ps = true -> NoDup ranks -> Permutation ps ps' -> 2 <= fuel ->
+  part_loop fuel ps' ranks = Some (expand ps ranks).
+Proof.
+  intros Hk Hfr Hnd Hp Hfuel. apply fresh_b_spec in Hfr.
+  rewrite (part_loop_expand_self ps' ranks fuel).
+  - f_equal. apply expand_ext. intros r _. symmetry. apply lookup_perm; assumption.
+  - eapply Permutation_NoDup; [apply Permutation_map, Hp|exact Hk].
+  - eapply fresh_perm; eassumption.
+  - exact Hnd.
+  - exact Hfuel.
+Qed.
+
